@@ -230,10 +230,15 @@ def rule_isolation(ctx: Ctx) -> None:
             ctx.check(pushed, "C14.2", f"{target.rsplit('.', 1)[-1]} coroutine goes through TaskPool.push", fn, c,
                       "argument of TaskPool.push", "handler/job coroutine is started outside the bounded pool")
     ctx.floor("C14.2", "creation sites of handler/job coroutines", n_sites, 4)
-    oi = ctx.func(f"{DISP}.RealtimeDispatcher._on_idle")
-    idle_calls = [c for c in A.func_calls(oi, shallow=False) if isinstance(c.func, ast.Name) and c.func.id == "idle_handler"]
+    idle_calls = []
+    for nm_, oi in sorted(ctx.repo.methods_of(f"{DISP}.RealtimeDispatcher").items()):
+        for node in ast.walk(oi.node):
+            gens = node.generators if isinstance(node, (ast.ListComp, ast.GeneratorExp, ast.SetComp)) else ([node] if isinstance(node, (ast.For, ast.AsyncFor)) else [])
+            for g_ in gens:
+                if A.dotted(g_.iter) == "self._idle_handlers" and isinstance(g_.target, ast.Name):
+                    idle_calls += [(oi, c) for c in ast.walk(node) if isinstance(c, ast.Call) and isinstance(c.func, ast.Name) and c.func.id == g_.target.id]
     ctx.floor("C14.2", "idle handler invocations", len(idle_calls), 1)
-    for c in idle_calls:
+    for oi, c in idle_calls:
         par = c.parent  # type: ignore[attr-defined]
         ctx.check(isinstance(par, ast.Call) and (A.call_name(par) or "").endswith("_handlers_task_pool.push"), "C14.2",
                   "idle handler goes through TaskPool.push", oi, c, "argument of pool.push",
